@@ -28,7 +28,7 @@ REQUIRED_CLASSES = ['material-number-fraction', 'material-mass-fraction', 'subst
                     'natural', 'most-abundant', 'single-component', 'components>=5', 'proportion-span>=1e4',
                     'scaling-k<1', 'scaling-k>1', 'duality-number-to-mass', 'duality-mass-to-number',
                     'repeated-substance-in-string', 'composite-from-addition', 'composite-from-add-method',
-                    'composite-from-number-times-material', 'shared-component-accumulated', 'operands-rechecked-after-sum']
+                    'composite-from-number-times-material', 'composite-from-material-plus-substances', 'component-substance-of-a-material', 'substance-with-own-proportion', 'shared-component-accumulated', 'operands-rechecked-after-sum']
 REQUIRED_MONITORS = ['mode_twin_tables', 'fraction_rows_checked', 'sum_rows_checked', 'scaling_twins_compared', 'duality_twins_compared',
                      'table_hygiene_checks']
 ASSUMPTIONS = ['component masses m_i are taken from data_components() (their correctness is C10)',
@@ -147,7 +147,7 @@ def gen_arith(rng, T, natural, k):
     na = rng.randint(1, len(pool))
     a = [[f, amount_text(rng)] for f in pool[:na]]
     b = [[f, amount_text(rng)] for f in pool[rng.randint(0, na - 1):]]
-    return dict(t='arith', kind='material', op=rng.choice(['add', 'add', 'rmul', 'addmethod']), norm=rng.choice(['number', 'mass']),
+    return dict(t='arith', kind='material', op=rng.choice(['add', 'add', 'rmul', 'addmethod', 'add-substances', 'add-substances']), norm=rng.choice(['number', 'mass']),
                 natural=natural, a=a, b=b, k=k)
 
 
@@ -475,6 +475,17 @@ def run_arith(case, ctx, classes, mon, devs):
             if set(da) & set(db):
                 classes.add('shared-component-accumulated')
             shown = 'Material(%r) + Material(%r)' % (da, db)
+        elif op == 'add-substances':
+            # the Python-level sum of a material and SUBSTANCES, each carrying its amount as its own proportion: a component of
+            # that amount joins (or tops up) the mixture - the substance is one component, not a bag of its elements
+            classes.add('composite-from-material-plus-substances')
+            C = A
+            for t, c in db.items():
+                C = cut('material+substance', lambda: C + M.Substance(t, natural=natural, proportion=c))
+                given[t] = given.get(t, 0.0) + c
+            if set(da) & set(db):
+                classes.add('shared-component-accumulated')
+            shown = 'Material(%r) + %s' % (da, ' + '.join('Substance(%r, proportion=%r)' % (t, c) for t, c in db.items()))
         elif op == 'rmul':
             classes.add('composite-from-number-times-material')
             C = cut('number*material', lambda: case['k'] * A)
